@@ -15,6 +15,10 @@ import PepperProofs.ConstraintGenFiles
   consecutive blank positions.  Quantifying over nucleotides makes zero-length strands harmless.
 * `seps_strand_arr` / `seps_struct_arr`: it holds of the template array `get_constraints` returns;
   `seps_strand_text` / `seps_struct_text`: and of the template text the C reader holds (`tripleOf a`).
+* `sepsOk_of_seps`: for any text, the clause over positions implies the executable check `sepsOk` (the separator
+  part of `SsmContract`) against the strands the layout puts on the line (`segsOf`).  `runs_eq_of_blocks`
+  characterises the maximal non-blank runs of a text by a sorted list of blocks; `sepsOk_of_layout` goes from blocks
+  given complex by complex to `sepsOk` (zero-length strands and empty complexes drop out as in `Segs.norm`).
 -/
 namespace Pepper.ConstraintGen
 open Pepper Pepper.Pil
@@ -441,14 +445,14 @@ def Seps (mode : Layout) (NB B : Nat → Prop) (spec : Spec) : Prop :=
 
 
 /-- the blocks `bs` (start, length) describe the non-blank positions of `st` from index `i` on -/
-structure Blocks (st : List Char) (i : Nat) (bs : List (Nat × Nat)) : Prop where
+structure RunBlocks (st : List Char) (i : Nat) (bs : List (Nat × Nat)) : Prop where
   pos : ∀ b ∈ bs, 0 < b.2
   sorted : bs.Pairwise (fun b b' => b.1 + b.2 < b'.1)
   inside : ∀ b ∈ bs, b.1 + b.2 ≤ i + st.length
   nb : ∀ k, k < st.length → (st[k]? ≠ some ' ' ↔ ∃ b ∈ bs, b.1 ≤ i + k ∧ i + k < b.1 + b.2)
 
-theorem Blocks.tail {c : Char} {st : List Char} {i : Nat} {bs : List (Nat × Nat)} (h : Blocks (c :: st) i bs) :
-    Blocks st (i + 1) bs := by
+theorem RunBlocks.tail {c : Char} {st : List Char} {i : Nat} {bs : List (Nat × Nat)} (h : RunBlocks (c :: st) i bs) :
+    RunBlocks st (i + 1) bs := by
   refine ⟨h.pos, h.sorted, fun b hb => by have := h.inside b hb; simp at this; omega, ?_⟩
   intro k hk
   have := h.nb (k + 1) (by simp; omega)
@@ -457,7 +461,7 @@ theorem Blocks.tail {c : Char} {st : List Char} {i : Nat} {bs : List (Nat × Nat
   have e : i + (k + 1) = i + 1 + k := by omega
   rw [e]
 
-theorem runsAux_blocks (st : List Char) : ∀ (i : Nat) (bs : List (Nat × Nat)), Blocks st i bs →
+theorem runsAux_blocks (st : List Char) : ∀ (i : Nat) (bs : List (Nat × Nat)), RunBlocks st i bs →
     ((∀ b ∈ bs, i ≤ b.1) → runsAux st i none = bs) ∧
     (∀ s l L rest, bs = (s, L) :: rest → s + l = i → 0 < l → l ≤ L → runsAux st i (some (s, l)) = bs) := by
   induction st with
@@ -530,7 +534,7 @@ theorem runsAux_blocks (st : List Char) : ∀ (i : Nat) (bs : List (Nat × Nat))
           · exact e
           · exact absurd (hnb0.2 ⟨(s, L), by simp, by simp; omega, by simp; omega⟩) (by simp)
         subst hLl
-        have hr : Blocks st (i + 1) rest := by
+        have hr : RunBlocks st (i + 1) rest := by
           have ht := h.tail
           refine ⟨fun b hb => ht.pos b (by simp [hb]), (List.pairwise_cons.1 ht.sorted).2,
             fun b hb => ht.inside b (by simp [hb]), ?_⟩
@@ -561,7 +565,7 @@ theorem runsAux_blocks (st : List Char) : ∀ (i : Nat) (bs : List (Nat × Nat))
         exact ih2 s (l + 1) L rest rfl (by omega) (by omega) (by omega)
 
 /-- the maximal non-blank runs of a text are the blocks that describe it -/
-theorem runs_eq_of_blocks {st : List Char} {bs : List (Nat × Nat)} (h : Blocks st 0 bs) : runs st = bs :=
+theorem runs_eq_of_blocks {st : List Char} {bs : List (Nat × Nat)} (h : RunBlocks st 0 bs) : runs st = bs :=
   (runsAux_blocks st 0 bs h).1 (fun _ _ => Nat.zero_le _)
 
 
@@ -757,7 +761,7 @@ theorem sepsOk_of_layout (st : List Char) (cs : List (List (Nat × Nat)))
     obtain ⟨m1', m2', _, m4'⟩ := mem_zsC hz'
     have := h z.2 m1 z'.2 m1' m2 m2'
     unfold GapRel; omega
-  have B : Blocks st 0 ((zsOf cs).map (fun z => (z.2.1, z.2.2))) := by
+  have B : RunBlocks st 0 ((zsOf cs).map (fun z => (z.2.1, z.2.2))) := by
     refine ⟨?_, ?_, ?_, ?_⟩
     · intro b hb
       obtain ⟨z, hz, rfl⟩ := List.mem_map.1 hb
@@ -796,7 +800,7 @@ theorem sepsOk_of_layout (st : List Char) (cs : List (List (Nat × Nat)))
 theorem enum_map_snd {α β : Type} (l : List α) (g : α → β) : (enum l).map (fun q => g q.2) = l.map g := by
   apply List.ext_getElem?
   intro i
-  simp only [enum, List.getElem?_map, List.getElem?_zip_eq_some, List.getElem?_range]
+  simp only [enum, List.getElem?_map]
   by_cases h : i < l.length
   · have : ((List.range l.length).zip l)[i]? = some (i, l[i]) := by
       rw [List.getElem?_zip_eq_some]
@@ -916,14 +920,14 @@ theorem sepsOk_of_sepsStruct {st : List Char} {spec : Spec} (h : SepsStruct (nbT
     · intro hn
       obtain ⟨q, hq, r, hr, y, hy, rfl⟩ := h.cover i hn
       refine ⟨_, List.mem_map.2 ⟨q, hq, rfl⟩, _, List.mem_map.2 ⟨r, hr, rfl⟩, ?_, ?_⟩
-      · simp only; rw [posT_add]; omega
-      · simp only; rw [posT_add]; omega
+      · simp only; rw [posT_add spec q r.1 y]; omega
+      · simp only; rw [posT_add spec q r.1 y]; omega
     · rintro ⟨c, hc, b, hb, h1, h2⟩
       obtain ⟨q, hq, rfl⟩ := List.mem_map.1 hc
       obtain ⟨r, hr, rfl⟩ := List.mem_map.1 hb
       simp only at h1 h2
       have := h.nuc q hq r hr (i - posT spec q r.1 0) (by omega)
-      rw [posT_add] at this
+      rw [posT_add spec q r.1 (i - posT spec q r.1 0)] at this
       have e : posT spec q r.1 0 + (i - posT spec q r.1 0) = i := by omega
       rwa [e] at this
 
